@@ -917,6 +917,11 @@ class Exec:
             b = VStr.const("method:" + b.name.lstrip("_"))
         if isinstance(a, VStr) and isinstance(b, VStr):
             return a.t == b.t
+        if isinstance(a, VFunc) and isinstance(b, VBuiltin) or isinstance(a, VBuiltin) and isinstance(b, VFunc):
+            # a named library function compared with a function VALUE: the same identity codes coerce() gives
+            from .values import str_code
+            a = a if isinstance(a, VFunc) else VFunc(z3.IntVal(str_code("function:" + a.name)), b.kind)
+            b = b if isinstance(b, VFunc) else VFunc(z3.IntVal(str_code("function:" + b.name)), a.kind)
         if isinstance(a, VFunc) and isinstance(b, VFunc):
             return a.t == b.t
         if isinstance(a, VSeq) and isinstance(b, VSeq):
